@@ -233,6 +233,8 @@ func (c *Ctx) contractCall(fr *Frame, st *State, site ssa.Instruction, fn *ssa.F
 	env := c.calleeEnv(fr, fn, fn.Signature, paramNames(fn), pre, pre, args, fd)
 	if con.External || con.Trusted {
 		c.assumed["assumed contract: "+con.Name] = true
+	} else if k := c.prog.fnKey(fn); c.prog.funcs[k] == fn {
+		c.uses[k] = true
 	}
 	for _, rq := range con.Requires {
 		g := env.evalTop(rq)
